@@ -4,9 +4,14 @@ import json, os, shutil, sys, re
 ROOT = os.path.dirname(os.path.dirname(os.path.abspath(__file__)))
 src, rnd, results = sys.argv[1], sys.argv[2], json.load(open(sys.argv[3]))
 needs = json.load(open(sys.argv[4])) if len(sys.argv) > 4 else {}
+_nk = os.path.join(ROOT, "selftest", "not_kept.json")
+not_kept = {k["id"] for k in json.load(open(_nk))} if os.path.exists(_nk) else set()
 for r in results:
     name = r["name"]            # C01-A
     prop, ab = name.split("-")
+    if f"{rnd}-{name}" in not_kept:
+        print("skip (not kept, see selftest/not_kept.json):", name)
+        continue
     if not (r.get("demo_passes_without_patch") and r.get("suite_passes_with_patch") and r.get("demo_fails_with_patch")):
         print("skip (not confirmed):", name)
         continue
@@ -21,7 +26,8 @@ for r in results:
                 needs_to_manifest=needs.get(name, "see NOTES.agent.md (section for change %s)" % ab),
                 confirmed=dict(pinned_suite_passes_with_patch=True, demo_fails_with_patch=True, demo_passes_without_patch=True,
                                how="selftest/mutate.py <patch> --demo <demo>: scratch copy of /repo's root package, `go test -count=1 .` with the patch, demo copied in as zz_demo_test.go and run with and without the patch"),
-                checks_run=f"./selftest/mutate.py seeded/{rnd}-{name}/patch.diff --props {prop} (quick tier, VERIF_SEED=1)",
+                checks_run=f"./selftest/mutate.py seeded/{rnd}-{name}/patch.diff --demo seeded/{rnd}-{name}/demo_test.go --all  (all 20 checks, quick tier, VERIF_SEED=1; run for every change by selftest/final_matrix.sh)",
+                other_outcomes=r.get("other", []),
                 detected_by=r.get("fired", []), first_finding=(r.get("keys") or [""])[0][:300])
     json.dump(meta, open(os.path.join(d, "meta.json"), "w"), indent=1)
     print("seeded", d)
